@@ -15,7 +15,7 @@
 import Cog.Sem.GoEquals
 import Cog.Drv.SemDrv
 namespace Cog.Drv
-open Cog Cog.IR Cog.Sem
+open Cog Cog.IR Cog.Sem Cog.Sem.GoEq
 
 def bit (b : Bool) : String := if b then "1" else "0"
 
